@@ -31,6 +31,7 @@ structure GEdge where
   plus : Bool
   mirrored : Bool
   on : Bool
+  removing : Bool      -- `unsubscribeFromSource()` has returned, `removeSourceElements()` not yet run
   view : Bool
   queue : List Bool
 deriving Repr, DecidableEq
@@ -46,6 +47,8 @@ inductive GOp
   | connect (i : Nat)
   | deliver (i : Nat)
   | publish (n : Nat)
+  | unsubMark (i : Nat)
+  | unsubRemove (i : Nat)
 deriving Repr, DecidableEq
 
 def genq (j : Nat) (b : Bool) (e : GEdge) : GEdge :=
@@ -64,7 +67,7 @@ def gStep (atomic : Bool) (base : Nat → Bool) (s : GS) : GOp → GS
   | .connect i =>
     match s.edges[i]? with
     | some e =>
-      if e.on then s
+      if e.on || e.removing then s
       else { s with edges := s.edges.set i { e with on := true, view := false, queue := if s.v e.src then [true] else [] } }
     | none => s
   | .deliver i =>
@@ -86,6 +89,26 @@ def gStep (atomic : Bool) (base : Nat → Bool) (s : GS) : GOp → GS
     match s.pending[n]? with
     | some p => { s with edges := s.edges.map (genq p.1 p.2), pending := s.pending.eraseIdx n }
     | none => s
+  -- the unsubscribe function of `DerivedSet.InheritFrom`, first half: the callback is cancelled (no further report is
+  -- queued or handled; what was not handled is dropped)
+  | .unsubMark i =>
+    match s.edges[i]? with
+    | some e =>
+      if e.on && e.mirrored && e.plus then { s with edges := s.edges.set i { e with on := false, removing := true, queue := [] } }
+      else s
+    | none => s
+  -- second half: `inheritMutations(deleted = sourceElements)` withdraws what the mirror holds
+  | .unsubRemove i =>
+    match s.edges[i]? with
+    | some e =>
+      if !e.removing || e.on || !e.plus || base e.dst then s
+      else
+        let cv := inheritBit (s.c e.dst) (s.v e.dst) false e.view
+        let edges1 := s.edges.set i { e with removing := false, view := false }
+        { v := setAt s.v e.dst cv.2, c := setAt s.c e.dst cv.1,
+          edges := if (cv.2 != s.v e.dst) && atomic then edges1.map (genq e.dst cv.2) else edges1,
+          pending := if (cv.2 != s.v e.dst) && !atomic then s.pending ++ [(e.dst, cv.2)] else s.pending }
+    | none => s
 
 def gRun (atomic : Bool) (base : Nat → Bool) (s : GS) (ops : List GOp) : GS := ops.foldl (gStep atomic base) s
 
@@ -93,10 +116,14 @@ def gRun (atomic : Bool) (base : Nat → Bool) (s : GS) (ops : List GOp) : GS :=
 def GS.init (wiring : List (Nat × Nat × Bool × Bool)) : GS :=
   { v := fun _ => false, c := fun _ => 0, pending := [],
     edges := wiring.map (fun w => { src := w.1, dst := w.2.1, plus := w.2.2.1, mirrored := w.2.2.2, on := false,
-                                    view := false, queue := [] }) }
+                                    removing := false, view := false, queue := [] }) }
 
 /-- All subscriptions made, every report handled, nothing waiting to be published. -/
-def GS.quiescent (s : GS) : Bool := s.edges.all (fun e => e.on && e.queue.isEmpty) && s.pending.isEmpty
+def GS.quiescent (s : GS) : Bool :=
+  s.edges.all (fun e => (e.on && e.queue.isEmpty) || (!e.on && !e.removing)) && s.pending.isEmpty
+
+/-- the subscriptions that exist -/
+def GS.live (s : GS) : List GEdge := s.edges.filter (·.on)
 
 def gsign (e : GEdge) : Int := if e.plus then 1 else -1
 
